@@ -49,14 +49,14 @@ const Profile kProfiles[] = {
 	                   {30, 18, 14, 8,  4, 5, 3, 10, 2, 3, 3}, {1, 0, 0}, 14, 14, 40, 20},
 	{"phases",         {34, 22, 12, 8,  4,  6,   1,   1,   3,  2,   2,  2,  0,  1,  1,  0,  1,  1},
 	                   {34, 24, 6,  8,  5, 5, 4, 8, 2, 2, 3}, {1, 0, 0}, 12, 12, 40, 15},
-	{"neutral",        {30, 14, 8,  20, 18, 0,   0,   0,   0,  0,   0,  0,  0,  0,  0,  0,  0,  0},
+	{"neutral",        {30, 14, 8,  20, 18, 0,   0,   0,   0,  0,   3,  3,  0,  0,  0,  0,  0,  0},
 	                   {40, 36, 24, 0,  0, 0, 0, 0, 0, 0, 10}, {1, 0, 0}, 12, 14, 0, 20},
 	// scenarios that use exactly one optional feature (C19: switching on any *other* feature must not change them)
-	{"plans_only",     {30, 8,  2,  8,  6,  24,  2,   5,   8,  5,   0,  0,  0,  0,  0,  0,  0,  0},
+	{"plans_only",     {30, 8,  2,  8,  6,  24,  2,   5,   8,  5,   3,  4,  0,  0,  0,  0,  0,  0},
 	                   {26, 12, 6,  14, 8, 8, 5, 16, 2, 5, 3}, {1, 0, 0}, 16, 14, 40, 20},
-	{"serial_only",    {16, 6,  2,  10, 18, 0,   0,   0,   0,  0,   0,  0,  20, 24, 0,  0,  0,  0},
+	{"serial_only",    {16, 6,  2,  10, 18, 0,   0,   0,   0,  0,   3,  4,  20, 24, 0,  0,  0,  0},
 	                   {50, 26, 14, 0,  0, 0, 0, 0, 0, 0, 5}, {1, 0, 0}, 14, 10, 30, 15},
-	{"history_only",   {22, 8,  2,  14, 20, 0,   0,   0,   0,  0,   0,  0,  0,  0,  14, 0,  0,  0},
+	{"history_only",   {22, 8,  2,  14, 20, 0,   0,   0,   0,  0,   3,  4,  0,  0,  14, 0,  0,  0},
 	                   {34, 32, 24, 0,  0, 0, 0, 0, 0, 0, 8}, {3, 2, 0}, 14, 14, 40, 20},
 };
 const int kProfileCount = sizeof(kProfiles) / sizeof(kProfiles[0]);
@@ -79,7 +79,8 @@ rc::Gen<uint8_t> genPay(int pct) {
 		const int k = *rng<int>(0, 10);
 		if (k == 0) return 255;
 		if (k == 1) return 254;
-		return uint8_t(*rng<int>(1, 254));
+		if (k == 2) return 253;   // all-zero bytes
+		return uint8_t(*rng<int>(1, 253));
 	});
 }
 
